@@ -59,6 +59,33 @@ CHECKS = {
         note="Trusted: md-5 crate as hash primitive (also used by the library; the serialisation and bookkeeping around it are independent), shuttle runtime, channel model.",
         technique="deterministic simulation: seeded schedules of the hashing thread x scripted source delivery, independent STREAMINFO/MD5 oracle",
     ),
+    "C12": dict(
+        engine="seamsim",
+        category="fault_enumeration",
+        text="Fault injection on the BitSink seam, enumerated completely for a corpus of small streams: for every component (stream, stream "
+             "with precomputed frames, STREAMINFO, metadata, frames, frame headers, subframes, residuals) and EVERY operation index k of its "
+             "write, the write is repeated on a user-defined sink that fails at operation k, in four flavours (required-methods-only or "
+             "all-methods-overridden sink; failing from k on, or only at k). Oracles: no panic; the call returns the sink's error; the bits "
+             "accepted before the failure are a prefix of the clean bitstream; a clean write on the same thread afterwards yields the clean bytes. "
+             "The thorough tier repeats it on a larger corpus and on a build with debug assertions and overflow checks.",
+        design_ref="DESIGN.md section 4.3",
+        note="Complete over k for the corpus; the corpus itself (48 / 400 small streams, every subframe kind and stereo mode, 8..24 bits) is a sample of all streams. "
+             "The sink either accepts or rejects a whole operation.",
+        technique="fault injection on the BitSink seam, enumerated at every operation index of the write (deterministic, replayable per (component, flavour, k))",
+    ),
+    "C16": dict(
+        engine="seamsim",
+        category="fault_enumeration",
+        text="Storage faults between Stream::write and parser::stream, enumerated for a corpus of small emitted streams: EVERY single-bit flip of the "
+             "whole file, EVERY truncation length, bursts of up to 8 bits (quick: every multi-bit mask at every byte position on a third of the corpus; "
+             "thorough: every start bit x every mask with first and last bit set, all streams, plus a build with debug assertions and overflow checks), and seeded "
+             "random byte strings and splices for the never-panics half. Oracles: parser::stream never panics; a fault at or after the first frame byte that is still "
+             "accepted must decode to the original audio (decode must not panic either).",
+        design_ref="DESIGN.md section 4.5",
+        note="Complete over fault positions for the corpus (30 / 120 streams of 40-700 bytes); random bytes and splices are a shallow sample (fuzzing territory). "
+             "A corpus stream the parser rejects unmutated is skipped and counted (baseline_rejected; the empty stream is one).",
+        technique="fault injection on stored bytes (bit flips, bursts, truncation) enumerated at every position, differential decode oracle, replayable per (stream, fault)",
+    ),
 }
 
 
